@@ -512,6 +512,51 @@ func parseCallToolResult(rawMessage *json.RawMessage) (*CallToolResult, error) {
 }
 
 func parseContent(contentMap map[string]any) (Content, error) {
+	content, err := parseContentItem(contentMap)
+	if err != nil {
+		return nil, err
+	}
+	// Annotations belong to the item, whatever its kind.
+	annotated := parseAnnotated(contentMap)
+	if annotated.Annotations == nil {
+		return content, nil
+	}
+	switch c := content.(type) {
+	case TextContent:
+		c.Annotated = annotated
+		return c, nil
+	case ImageContent:
+		c.Annotated = annotated
+		return c, nil
+	case AudioContent:
+		c.Annotated = annotated
+		return c, nil
+	case EmbeddedResource:
+		c.Annotated = annotated
+		return c, nil
+	}
+	return content, nil
+}
+
+// parseAnnotated decodes the optional "annotations" member of a content item.
+func parseAnnotated(contentMap map[string]any) Annotated {
+	var annotated Annotated
+	raw, ok := contentMap["annotations"]
+	if !ok || raw == nil {
+		return annotated
+	}
+	data, err := json.Marshal(raw)
+	if err != nil {
+		return annotated
+	}
+	if err := json.Unmarshal(data, &annotated.Annotations); err != nil {
+		annotated.Annotations = nil
+	}
+	return annotated
+}
+
+// parseContentItem parses one content item according to its type tag.
+func parseContentItem(contentMap map[string]any) (Content, error) {
 	contentType := extractString(contentMap, "type")
 
 	switch contentType {
